@@ -72,7 +72,7 @@ G_NOTE = ("Trusted base: RefGeo (own quadric evaluation, RPN evaluation, transfo
 chk("C03", "exploration",
     "1-8 clients (slots of one OrangeStateData) execute seeded, scheduler-interleaved operation sequences permitted by the documented "
     "call order (init, find_next_step[(max)], move_internal, move_to_boundary, cross_boundary, set_dir incl. on boundaries and reversing, "
-    "move_internal(pos), copy-initialisation) on bundled and generated geometries; after every operation the reported volume, distance, "
+    "move_internal(pos), copy-initialisation) on bundled, generated and construction-API-built geometries; after every operation the reported volume, distance, "
     "boundary flag and post-crossing volume are compared with an independent reference locator built from the same OrangeInput; other "
     "slots must be untouched.", G_NOTE,
     "deterministic simulation: stateful navigator vs executable reference model, seeded op interleaving", "§5 C03", "G")
@@ -86,7 +86,7 @@ chk("C19", "exploration",
     "optional comma-decimal global locale) and the differential replay. Each geometry input (bundled file or generated) is written "
     "and read back through it; oracle: field-by-field structural equality (surfaces bitwise, faces, logic, flags, zorder, bboxes, "
     "labels, daughters and transforms, array grids, tolerances) and bit-identical navigation histories of the same client plans on "
-    "OrangeParams(A) and OrangeParams(B).", G_NOTE + " Geometries come from bundled files (incl. six written by the construction API) and the direct generator.",
+    "OrangeParams(A) and OrangeParams(B).", G_NOTE + " Geometries come from bundled files, the direct generator and (one plan in six) seeded object trees converted by the real construction API (InputBuilder).",
     "deterministic simulation: short-read/short-write stream faults + differential replay of navigation", "§5 C19", "G")
 
 I_NOTE = ("Trusted base: the harness, gcc 12 + ASan/UBSan, hand-built model data (no Geant4): Seltzer-Berger tables only for Z=29 and "
